@@ -14,7 +14,7 @@ import rustlex as rl
 import vgen
 
 SCALARS = ["Int32", "Int64", "Float64", "String", "Bool", "Null", "Timestamp"]
-PAYLOAD = {"NullArray": "()", "Int32Array": "i32", "Int64Array": "i64", "Float64Array": "f64", "StringArray": "String", "BooleanArray": "bool"}
+PAYLOAD = {"TimestampMillisecondArray": "i64", "NullArray": "()", "Int32Array": "i32", "Int64Array": "i64", "Float64Array": "f64", "StringArray": "String", "BooleanArray": "bool"}
 
 
 def split_match_arms(body):
@@ -83,7 +83,7 @@ def generate(repo):
         if not pm or pm.group(1) not in SCALARS:
             continue
         dt = pm.group(1)
-        am = re.search(r"Arc::new\(\s*(\w+Array)::from\(values\)\s*\)", arm)
+        am = re.search(r"Arc::new\(\s*(?:arrow::array::)?(\w+Array)::from\(\s*values\s*,?\s*\)\s*\)", arm)
         nm = re.search(r"Arc::new\(\s*(?:arrow::array::)?NullArray::new\(", arm)
         if not am and not nm:
             raise vgen.GenError("build_column_array arm %s: array constructor not recognised" % dt)
@@ -102,7 +102,7 @@ def generate(repo):
         raise vgen.GenError("build_column_array: no arm for %s" % missing)
     # read-back: `if let Some(arr) = array.as_any().downcast_ref::<XArray>() { return Ok(Value::K(..arr.value(row_idx)..)); }`
     load = []
-    for xm in re.finditer(r"downcast_ref::<(\w+Array)>\(\)\s*\{\s*return\s+Ok\(\s*Value::(\w+)\((.*?)\)\s*\);", extract, re.S):
+    for xm in re.finditer(r"downcast_ref::<(?:arrow::array::)?(\w+Array)>\(\)\s*\{\s*return\s+Ok\(\s*Value::(\w+)\((.*?)\)\s*\);", extract, re.S):
         arr, ctor, expr = xm.group(1), xm.group(2), xm.group(3)
         if arr in PAYLOAD and not any(a == arr for a, _, _ in load):
             load.append((arr, ctor, expr.strip()))
